@@ -21,9 +21,15 @@ LEVEL_NOTE = "task-level interleavings only (single-threaded runtime); trusts th
 ASSUMPTIONS = []
 
 
-def rule_list(rng, classes, upstreams):
+def rule_list(rng, classes, upstreams, pad=False):
     """random list; returns (json rules, fn(class, listener)->decision)"""
     rules = []
+    if pad:
+        # a long run of rules that never match in front: the decision walks far before it decides (and a replacement may
+        # arrive while it walks)
+        for j in range(rng.choice([0, 150, 300, 400])):
+            ptgt = rng.choice(upstreams + ["deny"])
+            rules.append(({"target": ptgt, "filter": 'request.target.host == "never%d.sim"' % j}, ("host", "never%d.sim" % j), ptgt))
     for _ in range(rng.randint(1, 4)):
         tgt = rng.choice(upstreams + ["deny"])
         r = rng.random()
@@ -55,6 +61,7 @@ def gen(rng, tier, i):
         chaos["capacity"] = 1 << 20
     sc.net["chaos"] = chaos
     sc.net["spawn_yield"] = rng.choice([0, 300, 700])
+    sc.net["lock_yield"] = rng.choice([100, 500, 900])   # seeded scheduling points at the asynchronous locks
     m = rng.randint(2, 4)
     ups = []
     for k in range(m):
@@ -64,7 +71,10 @@ def gen(rng, tier, i):
     la = sc.add_http_listener("l-a")
     lb = sc.add_http_listener("l-b")
     classes = ["c%d.example.sim" % j for j in range(rng.randint(2, 4))]
-    versions = [rule_list(rng, classes, ups)]
+    pad = rng.random() < 0.1
+    if pad:
+        sc.net["chaos"] = {}     # no network delays: the requests and the replacement really meet in one instant
+    versions = [rule_list(rng, classes, ups, pad)]
     sc.cfg["rules"] = [r[0] for r in versions[0]]
     nposts = rng.randint(1, 8)
     posts = []
@@ -79,7 +89,7 @@ def gen(rng, tier, i):
             posts.append({"k": k, "kind": "get", "cid": "get%d" % k, "at": t})
             sc.api_call("get%d" % k, "GET", "/api/rules", start_ms=t, background=True)
             continue
-        lst = rule_list(rng, classes, ups)
+        lst = rule_list(rng, classes, ups, pad)
         body = [dict(r[0]) for r in lst]
         if kind != "valid":
             pos = rng.randrange(len(body))
@@ -96,9 +106,14 @@ def gen(rng, tier, i):
     # probes
     nprobe = rng.randint(2, 30)
     probes = []
+    volley_at = rng.choice(posts)["at"] if (pad and posts) else None
+    if pad:
+        nprobe = max(nprobe, 24)
     for k in range(nprobe):
         r = rng.random()
-        if r < 0.6 and posts:
+        if volley_at is not None and k < 20:
+            at = volley_at      # a volley of requests in the very instant of a replacement: some of them are in mid-walk
+        elif r < 0.6 and posts:
             at = rng.choice(posts)["at"] + rng.choice([-3, -1, 0, 0, 1, 2, 3, 10])
         else:
             at = rng.randint(50, t_end)
@@ -109,6 +124,10 @@ def gen(rng, tier, i):
         hs, proto = sc.client_handshake(li, host, port)
         sc.add_client("p%d" % k, li, [dict(o, on_fail="continue") for o in hs] + [op("recv_eof", timeout_ms=20000, label="eof")], start_ms=at)
         probes.append({"k": k, "host": host, "listener": li["name"], "port": port, "at": at})
+    if volley_at is not None:
+        # actors start in list order: let the volley's requests reach the proxy before the replacement that meets them
+        moved = [a for a in sc.actors if a.get("id", "").startswith("post") and a.get("start_ms") == volley_at]
+        sc.actors = [a for a in sc.actors if a not in moved] + moved
     sc.api_call("final", "GET", "/api/rules", start_ms=t_end + 2000)
     sc.meta = {"cls": "posts%d/probes%d/adm%d" % (nposts, nprobe, admins), "cfgkey": "%s/%s" % (cname, "-".join(p["kind"] for p in posts)),
                "v0": [[r[1], r[2]] for r in versions[0]], "posts": posts, "probes": probes, "keep_ops": True}
